@@ -1192,6 +1192,15 @@ Proof.
   intros s after. unfold remaining_u, start_flush_u, phase_rest. scbn. cbn [wb_text skipn].
   rewrite text_of_nl. reflexivity.
 Qed.
+
+Theorem C11_remaining_fresh_proof : forall s after uafter,
+  remaining (setk_state CS_FLUSH (start_flush_c after s)) =
+    nl_text (k_cr (k s)) ++ text_of (cbuf s) ++ nl_text (k_cr (k s)) /\
+  remaining (setk_state CS_FLUSH (start_flush_raw_c after s)) = text_of (cbuf s) /\
+  remaining_u (setu_state US_FLUSH (start_flush_u uafter s)) = nl_text (k_cr (k s)) ++ text_of (ubuf s).
+Proof.
+  intros s after uafter. split; [apply remaining_fresh|]. split; [apply remaining_fresh_raw|apply remaining_u_fresh].
+Qed.
 Section World2.
 Variable D : desc.
 Variables ioS muS hS : Type.
